@@ -7,7 +7,9 @@ import (
 	"time"
 
 	execution "github.com/furiko-io/furiko/apis/execution/v1alpha1"
+	jobtasks "github.com/furiko-io/furiko/pkg/execution/tasks"
 	jobutil "github.com/furiko-io/furiko/pkg/execution/util/job"
+	"github.com/furiko-io/furiko/pkg/execution/util/parallel"
 )
 
 // full: every controller of the execution controller manager (cron, job-queue,
@@ -676,6 +678,28 @@ func genFull(seed int64, property string) *Plan {
 				p.Ops = append(p.Ops, UserOp{AtMs: at + int64(50+r.Intn(4000)), Kind: "createJob", NS: "default", Name: name, Job: &again})
 				break
 			}
+		}
+	}
+	if (property == "C09" || property == "C10" || property == "C12") && r.Intn(3) == 0 {
+		// a foreign object occupying the task name of one index of a parallel Job: the other
+		// indexes' tasks exist and run when the Job is refused
+		for _, op := range p.Ops {
+			if op.Kind != "createJob" || op.Job == nil || op.Job.Template == nil {
+				continue
+			}
+			t := buildTemplate(op.Job.Template)
+			if t.Parallelism == nil {
+				continue
+			}
+			idxs := parallel.GenerateIndexes(t.Parallelism)
+			if len(idxs) < 2 {
+				continue
+			}
+			idx := idxs[1+r.Intn(len(idxs)-1)]
+			if name, err := jobutil.GenerateTaskName(op.Name, jobtasks.TaskIndex{Retry: 0, Parallel: idx}); err == nil {
+				p.ForeignPods = append(p.ForeignPods, ForeignPod{NS: "default", Name: name, AtMs: 0, OwnerJob: []string{"", "other"}[r.Intn(2)]})
+			}
+			break
 		}
 	}
 	if property == "C09" {
